@@ -525,18 +525,21 @@ theorem doPastes_pn {env : List Entry} {l : List PTok} {ks : List Tok} (hpn : PN
 
 /-! ## `replaceParams` on a replacement list with `##` -/
 
-/-- the items `replaceParams` makes of the rest of a replacement list; `before`: the tokens already passed, last
-first.  A parameter next to `##` is replaced by the raw argument, any other by the expanded one. -/
-def itemsP (largs eargs : List (List HTok)) : List PTok → List PTok → List Item
+/-- the last token passed that is not white space -/
+def nextPrev (prev : Option Tok) (t : PTok) : Option Tok := if t.tok.isWhitespace then prev else some t.tok
+
+/-- the items `replaceParams` makes of the rest of a replacement list; `prev`: the last token passed that is not
+white space.  A parameter next to `##` is replaced by the raw argument, any other by the expanded one. -/
+def itemsP (largs eargs : List (List HTok)) : Option Tok → List PTok → List Item
   | _, [] => []
-  | before, t :: rest =>
-    if t.tok.isWhitespace then itemsP largs eargs (t :: before) rest
+  | prev, t :: rest =>
+    if t.tok.isWhitespace then itemsP largs eargs prev rest
     else match t.tok with
-      | .concat => .paste :: itemsP largs eargs (t :: before) rest
+      | .concat => .paste :: itemsP largs eargs (some t.tok) rest
       | .arg i =>
-        (if firstTok before == some .concat || firstTok rest == some .concat then largs.getD i [] else eargs.getD i []).map
-          Item.tok ++ itemsP largs eargs (t :: before) rest
-      | k => .tok ⟨specBodyTok k, []⟩ :: itemsP largs eargs (t :: before) rest
+        (if prev == some .concat || firstTok rest == some .concat then largs.getD i [] else eargs.getD i []).map
+          Item.tok ++ itemsP largs eargs (some t.tok) rest
+      | k => .tok ⟨specBodyTok k, []⟩ :: itemsP largs eargs (some t.tok) rest
 
 /-- conditions on a replacement list (with `##`) under which `itemsP` describes `replaceParams` -/
 structure BodyOK (np : Nat) (mb : List PTok) : Prop where
@@ -551,52 +554,36 @@ theorem BodyOK.tail {np : Nat} {t : PTok} {r : List PTok} (h : BodyOK np (t :: r
 theorem specBodyTok_eq_hashhash {k : Tok} (h : k ≠ .hashhash) : specBodyTok k = .hashhash ↔ k = .concat := by
   cases k <;> simp [specBodyTok] at h ⊢
 
-theorem firstTok_mem {l : List PTok} {k : Tok} (h : firstTok l = some k) : ∃ t ∈ l, t.tok = k := by
-  induction l with
-  | nil => simp [firstTok] at h
-  | cons x r ih =>
-    unfold firstTok at h
-    split at h
-    · obtain ⟨t, ht, htk⟩ := ih h; exact ⟨t, by simp [ht], htk⟩
-    · simp only [Option.some.injEq] at h; exact ⟨x, by simp, h⟩
+theorem pasteParams_ws (prev : Option Tok) (t : PTok) (r : List PTok) (hw : t.tok.isWhitespace = true) :
+    pasteParams prev (t :: r) = pasteParams prev r := by
+  rw [pasteParams]
+  simp only [hw, if_true]
+  cases htk : t.tok <;> simp [htk, Tok.isWhitespace] at hw <;> rfl
 
 /-- `replaceParams` on the rest of a replacement list -/
 theorem replaceParams_paste (ex : List HTok → Except SErr (List HTok)) (np : Nat) (largs eargs : List (List HTok))
     (hex : ∀ i, i < np → ∃ ea, eargs[i]? = some ea ∧ ex (largs.getD i []) = .ok ea)
-    (rest : List PTok) : ∀ (before : List PTok), BodyOK np rest → (∀ t ∈ before, t.tok ≠ .hashhash) →
-    (∀ i, i ∈ pasteParams before rest → (largs.getD i []).isEmpty = false) →
-    replaceParams ex (paramNames np) largs ((firstTok before).map specBodyTok) ((ppTokens rest).map specBodyTok) =
-      .ok (itemsP largs eargs before rest) := by
+    (rest : List PTok) : ∀ (prev : Option Tok), BodyOK np rest → prev ≠ some .hashhash →
+    (∀ i, i ∈ pasteParams prev rest → (largs.getD i []).isEmpty = false) →
+    replaceParams ex (paramNames np) largs (prev.map specBodyTok) ((ppTokens rest).map specBodyTok) =
+      .ok (itemsP largs eargs prev rest) := by
   induction rest with
-  | nil => intro before _ _ _; rfl
+  | nil => intro prev _ _ _; rfl
   | cons t r ih =>
-    intro before hb hbef hne
-    have hbef' : ∀ x ∈ t :: before, x.tok ≠ .hashhash := by
-      intro x hx
-      rcases List.mem_cons.mp hx with rfl | hx
-      · exact hb.noHash x (by simp)
-      · exact hbef x hx
+    intro prev hb hprevne hne
     by_cases hw : t.tok.isWhitespace = true
-    · have hft : firstTok (t :: before) = firstTok before := by simp [firstTok, hw]
-      have := ih (t :: before) hb.tail hbef' (by
-        intro i hi
-        apply hne i
-        unfold pasteParams
-        cases htk : t.tok <;> simp [htk, Tok.isWhitespace] at hw <;> simpa [htk] using hi)
-      rw [hft] at this
-      rw [ppTokens_cons_ws t r hw]
+    · rw [ppTokens_cons_ws t r hw]
       simp only [itemsP, hw, if_true]
-      exact this
+      exact ih prev hb.tail hprevne (by rw [← pasteParams_ws prev t r hw]; exact hne)
     · have hw' : t.tok.isWhitespace = false := by simpa using hw
-      have hft : firstTok (t :: before) = some t.tok := by simp [firstTok, hw']
       rw [ppTokens_cons t r hw', List.map_cons]
+      have htne : t.tok ≠ .hashhash := hb.noHash t (by simp)
       -- the neighbours
-      have hprev : ((firstTok before).map specBodyTok = some Tok.hashhash) ↔ firstTok before = some .concat := by
-        cases hfb : firstTok before with
+      have hprev : (prev.map specBodyTok = some Tok.hashhash) ↔ prev = some .concat := by
+        cases prev with
         | none => simp
         | some k =>
-          obtain ⟨x, hx, hxk⟩ := firstTok_mem hfb
-          have := specBodyTok_eq_hashhash (k := k) (by rw [← hxk]; exact hbef x hx)
+          have := specBodyTok_eq_hashhash (k := k) (fun hh => hprevne (by rw [hh]))
           simp [this]
       have hnext : (((ppTokens r).map specBodyTok).head? = some Tok.hashhash) ↔ firstTok r = some .concat := by
         rw [firstTok_eq_head]
@@ -606,15 +593,22 @@ theorem replaceParams_paste (ex : List HTok → Except SErr (List HTok)) (np : N
           obtain ⟨x, hx, hxk⟩ := mem_ppTokens (l := r) (k := k) (by rw [hpp]; simp)
           have := specBodyTok_eq_hashhash (k := k) (by rw [← hxk]; exact hb.noHash x (by simp [hx]))
           simp [this]
-      have hrec := ih (t :: before) hb.tail hbef'
-      rw [hft] at hrec
+      have hrec := ih (some t.tok) hb.tail (by simpa using htne)
       simp only [Option.map_some] at hrec
+      have hpp : ∀ j, j ∈ pasteParams (some t.tok) r → j ∈ pasteParams prev (t :: r) := by
+        intro j hj
+        unfold pasteParams
+        simp only [hw', Bool.false_eq_true, if_false]
+        split
+        · split
+          · exact List.mem_cons_of_mem _ hj
+          · exact hj
+        · exact hj
+      have hrec' := hrec (fun j hj => hne j (hpp j hj))
       unfold replaceParams
       simp only [itemsP, hw', Bool.false_eq_true, if_false]
       cases htk : t.tok with
       | concat =>
-        have hrec' := hrec (by
-          intro i hi; apply hne i; unfold pasteParams; simpa [htk] using hi)
         rw [htk] at hrec'
         have hsb : specBodyTok Tok.concat = .hashhash := rfl
         rw [hsb] at hrec'
@@ -623,15 +617,11 @@ theorem replaceParams_paste (ex : List HTok → Except SErr (List HTok)) (np : N
       | arg i =>
         have hi : i < np := hb.argRange t (by simp) i htk
         obtain ⟨ea, hea, hexa⟩ := hex i hi
-        have hrec' := hrec (by
-          intro j hj; apply hne j; unfold pasteParams; simp only [htk]; split
-          · exact List.mem_cons_of_mem _ hj
-          · exact hj)
         rw [htk] at hrec'
         have hne1 : specBodyTok (Tok.arg i) ≠ .hashhash := by simp [specBodyTok]
         simp only [hne1, if_false, paramIndex_arg np i hi, hrec']
-        by_cases hadj : (firstTok before == some .concat || firstTok r == some .concat) = true
-        · have hntp : (decide ((firstTok before).map specBodyTok = some Tok.hashhash) ||
+        by_cases hadj : (prev == some .concat || firstTok r == some .concat) = true
+        · have hntp : (decide (prev.map specBodyTok = some Tok.hashhash) ||
               decide (((ppTokens r).map specBodyTok).head? = some Tok.hashhash)) = true := by
             simp only [Bool.or_eq_true, beq_iff_eq] at hadj
             rcases hadj with h1 | h1
@@ -643,19 +633,17 @@ theorem replaceParams_paste (ex : List HTok → Except SErr (List HTok)) (np : N
             simp only [htk, hadj, if_true]
             exact List.mem_cons_self
           simp only [hntp, if_true, hadj, hnemp, Bool.false_eq_true, if_false]
-        · have hntp : (decide ((firstTok before).map specBodyTok = some Tok.hashhash) ||
+        · have hntp : (decide (prev.map specBodyTok = some Tok.hashhash) ||
               decide (((ppTokens r).map specBodyTok).head? = some Tok.hashhash)) = false := by
             simp only [Bool.or_eq_true, beq_iff_eq, not_or] at hadj
-            have h1 : ¬ ((firstTok before).map specBodyTok = some Tok.hashhash) := fun hh => hadj.1 (hprev.mp hh)
+            have h1 : ¬ (prev.map specBodyTok = some Tok.hashhash) := fun hh => hadj.1 (hprev.mp hh)
             have h2 : ¬ (((ppTokens r).map specBodyTok).head? = some Tok.hashhash) := fun hh => hadj.2 (hnext.mp hh)
             rw [decide_eq_false h1, decide_eq_false h2]; rfl
-          have hadj' : (firstTok before == some .concat || firstTok r == some .concat) = false := by simpa using hadj
+          have hadj' : (prev == some .concat || firstTok r == some .concat) = false := by simpa using hadj
           simp only [hntp, Bool.false_eq_true, if_false, hexa, hadj']
           simp [List.getD, hea]
-      | hashhash => exact absurd htk (hb.noHash t (by simp))
+      | hashhash => exact absurd htk htne
       | _ =>
-        have hrec' := hrec (by
-          intro j hj; apply hne j; unfold pasteParams; simpa [htk] using hj)
         rw [htk] at hrec'
         have h1 : ∀ i, t.tok ≠ .arg i := by intro i hh; rw [htk] at hh; cases hh
         have hpi := paramIndex_other np t.tok h1 (fun s hs i => hb.noParamName t (by simp) s hs i)
@@ -665,6 +653,40 @@ theorem replaceParams_paste (ex : List HTok → Except SErr (List HTok)) (np : N
         rw [htk] at hne1
         simp only [hne1, if_false, hpi, hrec']
         rfl
+
+/-! ## the items against the model's substituted replacement list -/
+
+theorem tameP_out_noConcat {env : List Entry} {l out : List PTok} (h : TameP env l out) : NoConcat out := by
+  induction h with
+  | nil => exact fun t ht => (by cases ht)
+  | keep env t rest out hk _ _ ih =>
+    intro x hx
+    rcases List.mem_cons.mp hx with rfl | hx
+    · exact hk.1
+    · exact ih x hx
+  | paste _ _ _ _ _ _ _ _ _ _ _ _ _ ih => exact ih
+  | invoke _ _ _ _ _ _ _ _ _ _ _ _ _ _ _ _ _ _ _ _ _ _ _ _ ihbody ihrest =>
+    exact noConcat_append.mpr ⟨ihbody, ihrest⟩
+
+theorem itemsAl_append_arg (ls : List HTok) (a rest : List PTok) (items : List Item)
+    (htok : ls.map (·.tok) = ppTokens a) (hnc : NoConcat a) (h : ItemsAl items rest) :
+    ItemsAl (ls.map Item.tok ++ items) (a ++ rest) := by
+  induction a generalizing ls with
+  | nil =>
+    have : ls = [] := by simpa [ppTokens_nil] using htok
+    subst this; exact h
+  | cons t r ih =>
+    have hr : NoConcat r := fun x hx => hnc x (by simp [hx])
+    by_cases hw : t.tok.isWhitespace = true
+    · rw [ppTokens_cons_ws t r hw] at htok
+      exact ItemsAl.ws t _ _ hw (ih ls htok hr)
+    · have hw' : t.tok.isWhitespace = false := by simpa using hw
+      rw [ppTokens_cons t r hw'] at htok
+      cases ls with
+      | nil => simp at htok
+      | cons s ls' =>
+        simp only [List.map_cons, List.cons.injEq] at htok
+        exact ItemsAl.tk t _ _ s hw' (hnc t (by simp)) htok.1 (ih ls' htok.2 hr)
 
 
 end RsslVerif.Lemmas.MacroTamePSpec
